@@ -42,6 +42,8 @@ def run(tier, seed):
             sp = respell.spell(ast, respell.Sp(rnd, rnd.choice([0.15, 0.35, 0.6])))
             feat = ('/*' in sp, '\\' in sp, "'" in sp, any(c in sp for c in '\n\r\f\t'), sp.lower() != sp)
             ck.count(('respell', feat))
+            if any('\\' + nl in sp for nl in ('\n', '\r', '\f')):
+                ck.notes['respellings_with_line_continuation'] = ck.notes.get('respellings_with_line_continuation', 0) + 1
             try:
                 with warnings.catch_warnings():
                     warnings.simplefilter('ignore')
